@@ -7,11 +7,12 @@ ISPD / Bookshelf export and re-import at *record level* (C20).
            (`_read_nodes`, `_read_nets`, `_read_place`, `_read_rows`, then the calls made on the
            bound C++ `Circuit`: setters, `add_net`, `row_height`, polarity loop, `check`).
 
-A *record* is what one logical line of a file carries once it has been split into tokens
-(the tokenisation itself — `line.split()`, `replace(":", " ")`, iostream `<<` — is tied by the
-correspondence harness, not modelled).  Pin offsets in `.nets` are exact rationals: the C++
-writes `offset - 0.5 * size` as a `double` with the default stream precision of 6 significant
-digits (`fmt6`), the reader parses it with `float()` (exact on the values at hand).
+A *record* is what one logical line of a file carries once it has been split into tokens.  The text
+itself — what `operator<<` prints, and the reader's `strip()`/`split()`/`replace(":", " ")`/`int()`/
+`float()` — is modelled in Model/IspdText.lean, which refines this file (`C20.text_refines_records_partial`).
+Pin offsets in `.nets` are exact rationals: the C++ writes `offset - 0.5 * size` as a `double` with the
+default stream precision of 6 significant digits (`fmt6` is the value of the text `Text.fmtG6`), the reader
+parses it with `float()` (exact on the values at hand).
 
 Core Lean only.
 -/
